@@ -88,46 +88,16 @@ func hostileTx(t *rapid.T, w *sim.World, exp uint64, depth int) (*types.Transact
 	}
 	to := w.Users[rapid.IntRange(0, len(w.Users)-1).Draw(t, "txTo")].Addr
 	code := common.HexToHash("0x11")
-	var base *types.Transaction
-	kind := rapid.SampledFrom([]string{"box", "register", "createAsset", "issue", "replenish", "modifyAsset", "transferAsset", "signers", "transfer", "create", "vote"}).Draw(t, "txKind")
-	switch kind {
-	case "transfer":
-		base = sim.Transfer(from, to, sim.Lemo(1), exp)
-	case "create":
-		base = sim.CreateContract(from, sim.Lemo(0), rapid.SliceOfN(rapid.Byte(), 1, 40).Draw(t, "initCode"), 200000, exp)
-	case "vote":
-		base = sim.Vote(from, to, exp)
-	case "register":
-		base = sim.Register(from, sim.Lemo(0), true, nil, exp)
-	case "createAsset":
-		base = sim.CreateAsset(from, uint32(rapid.IntRange(0, 4).Draw(t, "category")), true, exp, "n")
-	case "issue":
-		base = sim.IssueAsset(from, to, code, "100", exp, "n")
-	case "replenish":
-		base = sim.ReplenishAsset(from, to, code, code, "5", exp, "n")
-	case "modifyAsset":
-		base = sim.ModifyAsset(from, code, map[string]string{"name": "x"}, exp, "n")
-	case "transferAsset":
-		base = sim.TransferAsset(from, to, code, "5", exp, "n")
-	case "signers":
-		base = sim.ModifySigners(from, []sim.SignerSpec{{Actor: w.Users[0], Weight: 60}, {Actor: w.Users[1], Weight: 50}}, exp)
-	case "box":
-		var subs types.Transactions
-		for i, n := 0, rapid.IntRange(1, 2).Draw(t, "nsubs"); i < n; i++ {
-			if depth < 1 && rapid.Bool().Draw(t, "hostileSub") {
-				sub, _ := hostileTx(t, w, exp, depth+1)
-				subs = append(subs, sub)
-			} else {
-				subs = append(subs, sim.Transfer(from, to, sim.Lemo(int64(2+i)), exp))
-			}
-		}
-		base = sim.Box(from, subs, 300000, exp)
-	}
+	kind := rapid.SampledFrom(jsonKinds).Draw(t, "txKind")
+	base := baseTxOf(t, w, from, to, code, exp, kind, depth)
 	spec := sim.TxSpec{Type: base.Type(), From: from.Addr, To: base.To(), Amount: base.Amount(), GasLimit: base.GasLimit(), Data: base.Data(), Exp: exp, Message: base.Message()}
 	var notes []string
 	for i, n := 0, rapid.IntRange(0, 2).Draw(t, "nTxMuts"); i < n; i++ {
 		switch rapid.IntRange(0, 8).Draw(t, "txMut") {
-		case 0, 1, 2:
+		case 0: // the whole document replaced ("null" first: it decodes into nil pointers and nil maps)
+			spec.Data = []byte(hostileJSON[rapid.IntRange(0, len(hostileJSON)-1).Draw(t, "wholeDoc")])
+			notes = append(notes, "data="+string(spec.Data[:min(len(spec.Data), 12)]))
+		case 1, 2:
 			if len(spec.Data) > 0 && spec.Data[0] == '{' {
 				var note string
 				spec.Data, note = mutateJSON(t, spec.Data)
@@ -180,6 +150,86 @@ func hostileTx(t *rapid.T, w *sim.World, exp uint64, depth int) (*types.Transact
 		notes = append(notes, "many-sigs")
 	}
 	return tx, kind + "(" + strings.Join(notes, ",") + ")"
+}
+
+var jsonKinds = []string{"box", "register", "createAsset", "issue", "replenish", "modifyAsset", "transferAsset", "signers", "transfer", "create", "vote"}
+
+// baseTxOf builds a well-formed transaction of the given kind.
+func baseTxOf(t *rapid.T, w *sim.World, from *sim.Actor, to common.Address, code common.Hash, exp uint64, kind string, depth int) *types.Transaction {
+	var base *types.Transaction
+	switch kind {
+	case "transfer":
+		base = sim.Transfer(from, to, sim.Lemo(1), exp)
+	case "create":
+		base = sim.CreateContract(from, sim.Lemo(0), rapid.SliceOfN(rapid.Byte(), 1, 40).Draw(t, "initCode"), 200000, exp)
+	case "vote":
+		base = sim.Vote(from, to, exp)
+	case "register":
+		base = sim.Register(from, sim.Lemo(0), true, nil, exp)
+	case "createAsset":
+		base = sim.CreateAsset(from, uint32(rapid.IntRange(0, 4).Draw(t, "category")), true, exp, "n")
+	case "issue":
+		base = sim.IssueAsset(from, to, code, "100", exp, "n")
+	case "replenish":
+		base = sim.ReplenishAsset(from, to, code, code, "5", exp, "n")
+	case "modifyAsset":
+		base = sim.ModifyAsset(from, code, map[string]string{"name": "x"}, exp, "n")
+	case "transferAsset":
+		base = sim.TransferAsset(from, to, code, "5", exp, "n")
+	case "signers":
+		base = sim.ModifySigners(from, []sim.SignerSpec{{Actor: w.Users[0], Weight: 60}, {Actor: w.Users[1], Weight: 50}}, exp)
+	case "box":
+		var subs types.Transactions
+		for i, n := 0, rapid.IntRange(1, 2).Draw(t, "nsubs"); i < n; i++ {
+			if depth < 1 && rapid.Bool().Draw(t, "hostileSub") {
+				sub, _ := hostileTx(t, w, exp, depth+1)
+				subs = append(subs, sub)
+			} else {
+				subs = append(subs, sim.Transfer(from, to, sim.Lemo(int64(2+i)), exp))
+			}
+		}
+		base = sim.Box(from, subs, 300000, exp)
+	}
+	return base
+}
+
+// poisonedPoolScript: blocks a deputy with a poisoned pool would mine: every transaction is of another kind and carries a whole
+// hostile document as its data (the documents that decode into nil pointers, nil maps and empty lists first).
+func poisonedPoolScript(t *rapid.T, c *chainCtx) []WireMsg {
+	w := c.s.W
+	dep := c.s.F.DeputyAt(c.x.Height(), c.s.F.RankOf(c.x.Height(), c.x.MinerAddress()))
+	var res []WireMsg
+	for b, nb := 0, rapid.IntRange(1, 2).Draw(t, "poisonedBlocks"); b < nb; b++ {
+		var txs types.Transactions
+		var names []string
+		for i, n := 0, rapid.IntRange(2, 4).Draw(t, "poisonedTxs"); i < n; i++ {
+			kind := jsonKinds[rapid.IntRange(0, 7).Draw(t, "poisonedKind")]
+			doc := hostileJSON[rapid.IntRange(0, len(hostileJSON)-1).Draw(t, "poisonedDoc")]
+			from := w.Users[rapid.IntRange(0, len(w.Users)-1).Draw(t, "poisonedFrom")]
+			base := baseTxOf(t, w, from, w.Founder.Addr, common.HexToHash("0x11"), uint64(c.head.Time())+900, kind, 1)
+			spec := sim.TxSpec{Type: base.Type(), From: from.Addr, To: base.To(), Amount: base.Amount(), GasLimit: base.GasLimit(), Data: []byte(doc), Exp: uint64(c.head.Time()) + 900}
+			var notes []string
+			txs = append(txs, signOrJunk(spec.Build(), from, &notes))
+			names = append(names, fmt.Sprintf("%s(data=%s)", kind, doc[:min(len(doc), 10)]))
+		}
+		sim.Journal(&MsgCase{Deputies: len(w.Deputies), Prefix: len(c.all) - 2, Stage: "factory assembles a block from: " + strings.Join(names, " ")})
+		hdr := sim.Header(c.head, c.x.MinerAddress(), c.x.Time(), fmt.Sprintf("poisoned%d", b))
+		nb2, _, err := c.s.F.Assemble(dep, hdr, txs)
+		if err != nil || nb2 == nil {
+			continue
+		}
+		bs := types.Blocks{nb2}
+		res = append(res, WireMsg{Code: uint32(p2p.BlocksMsg), Payload: enc(&bs), Note: fmt.Sprintf("poisoned-pool block[%d of %s]", len(nb2.Txs), strings.Join(names, " "))})
+		// the same transactions as gossip
+		var items []*item
+		for _, tx := range txs {
+			if it, _, ok := parseItem(enc(tx)); ok {
+				items = append(items, it)
+			}
+		}
+		res = append(res, WireMsg{Code: uint32(p2p.TxsMsg), Payload: (&item{list: true, kids: items}).enc(), Note: "poisoned-pool gossip " + strings.Join(names, " ")})
+	}
+	return res
 }
 
 // signOrJunk signs with the product's signer; where the product's own hashing cannot cope with the document (the remote
@@ -443,6 +493,11 @@ func spins(m WireMsg, cur uint32) bool {
 	return q.From <= q.To && q.From <= cur && q.To-q.From+1 > 200000
 }
 
+// msgMemConst: the constant term of the heap bound in this unit. The process also holds the simulated nodes of the cases of the last
+// 30 s (a product timer keeps each reachable that long, see sim/node.go) and their winding-down goroutines, so the live heap moves
+// by tens of MiB on its own; only a retention far beyond that is attributed to the messages of the case.
+const msgMemConst = 512 << 20
+
 type msgOutcome struct {
 	sent        int
 	base, peak  uint64
@@ -461,7 +516,7 @@ func runMsgCase(c *MsgCase, ctx *chainCtx) *msgOutcome {
 	o.peak = o.base
 	sample := func() {
 		h := heapNow()
-		if h > o.base && h-o.base > uint64(memConst)+uint64(memPerByte)*uint64(o.sent) {
+		if h > o.base && h-o.base > uint64(msgMemConst)+uint64(memPerByte)*uint64(o.sent) {
 			// HeapAlloc counts garbage that is not collected yet (the harness's own, too): only what survives a collection is held
 			runtime.GC()
 			h = heapNow()
@@ -560,9 +615,9 @@ func judgeMsgCase(o *msgOutcome) string {
 	if o.problem != "" {
 		return o.problem
 	}
-	limit := uint64(memConst) + uint64(memPerByte)*uint64(o.sent)
+	limit := uint64(msgMemConst) + uint64(memPerByte)*uint64(o.sent)
 	if o.peak > o.base && o.peak-o.base > limit {
-		return fmt.Sprintf("the node holds %d MiB more heap after receiving %d payload bytes (bound: %d MiB + %d per byte)", (o.peak-o.base)>>20, o.sent, memConst>>20, memPerByte)
+		return fmt.Sprintf("the node holds %d MiB more heap after receiving %d payload bytes (bound: %d MiB + %d per byte)", (o.peak-o.base)>>20, o.sent, msgMemConst>>20, memPerByte)
 	}
 	return ""
 }
@@ -598,11 +653,13 @@ func TestC15Messages(t *testing.T) {
 		now := uint64(time.Now().Unix())
 		excluded := 0
 		var scripted []WireMsg
-		switch rapid.IntRange(0, 4).Draw(rt, "script") {
+		switch rapid.IntRange(0, 5).Draw(rt, "script") {
 		case 0:
 			scripted = equivocationScript(rt, ctx)
 		case 1:
 			scripted = absurdHeaderScript(rt, ctx)
+		case 2:
+			scripted = poisonedPoolScript(rt, ctx)
 		}
 		for i, n := 0, rapid.IntRange(1, 5).Draw(rt, "nmsgs"); i < n || len(scripted) > 0; i++ {
 			var m WireMsg
